@@ -83,6 +83,26 @@ func engineREC(w *World, tier string) *EngineResult {
 						if mu, ok := ins.(*ssa.MapUpdate); ok && mu.Map == ssa.Value(prm) {
 							guarded, why = true, "visited set "+prm.Name()
 						}
+						// test-and-mark in a helper: the set is handed to a function of the
+						// module that updates that parameter
+						if c, ok := ins.(*ssa.Call); ok {
+							cal := c.Call.StaticCallee()
+							if cal == nil || cal == fn || cal.Pkg == nil || !inModule(cal.Pkg.Pkg.Path()) {
+								continue
+							}
+							for ai, a := range c.Call.Args {
+								if a != ssa.Value(prm) || ai >= len(cal.Params) {
+									continue
+								}
+								for _, cb := range cal.Blocks {
+									for _, ci := range cb.Instrs {
+										if mu, ok := ci.(*ssa.MapUpdate); ok && mu.Map == ssa.Value(cal.Params[ai]) {
+											guarded, why = true, "visited set "+prm.Name()+" (marked by "+fnKey(cal)+")"
+										}
+									}
+								}
+							}
+						}
 					}
 				}
 			}
